@@ -67,6 +67,8 @@ func main() {
 		runC10(*out, *seed, *tier)
 	case "C20":
 		runC20(*out, *seed, *tier)
+	case "C16":
+		runC16(*out, *seed, *tier)
 	case "C04":
 		runC04(*out, *seed, *tier)
 	default:
